@@ -7,6 +7,7 @@ package c03
 // (and the network recorder for partial-signature broadcasts); it never looks at return values.
 
 import (
+	"encoding/json"
 	"fmt"
 	"os"
 	"sort"
@@ -28,6 +29,9 @@ import (
 func TestMain(m *testing.M) { prog.Main(m) }
 
 const testName = "TestPropSignOnlyDecided"
+
+// lastLog is the operation log of the most recent run (TestShow prints it; tests run sequentially).
+var lastLog []string
 
 // ---- program ---------------------------------------------------------------------------------------
 
@@ -385,6 +389,15 @@ func (w *world) judge(op, fromSeq int, opKind string, foreign bool, startDuty *s
 			}
 			w.failf(sig, "op %d: duty object %x (domain %x) signed a second time (first in op %d)", op, r.ObjRoot[:6], r.DomainType[:], first)
 			return
+		}
+		if viaCert && len(objs) == 1 {
+			for k2 := range w.signed {
+				if k2.slot == k.slot && k2.dt == k.dt && k2.root != k.root {
+					// two conflicting certificates for one height need more than f faulty members: outside
+					// the fault model, so only counted (consequence of the evicted-undecided state)
+					w.cls["evicted:second-decided-value-signed-for-one-duty(conflicting-certs,>f-faults)"] = true
+				}
+			}
 		}
 		w.signed[k] = op
 		w.cur.decided = true
@@ -953,6 +966,7 @@ func run(p Prog) *prog.Result {
 			w.replay(o, true)
 		}
 	}
+	lastLog = w.log
 	if w.fail != nil {
 		res.Fail = w.fail
 		return res
@@ -1067,3 +1081,26 @@ func TestPropSignOnlyDecided(t *testing.T) {
 }
 
 func TestReplay(t *testing.T) { prog.Replay(t, "C03", testName, run) }
+
+// TestShow prints the full verdict (with the operation log) for a saved program: VERIF_SHOW=<replay file>.
+func TestShow(t *testing.T) {
+	path := os.Getenv("VERIF_SHOW")
+	if path == "" {
+		t.Skip("VERIF_SHOW not set")
+	}
+	raw, err := os.ReadFile(path)
+	if err != nil {
+		t.Fatal(err)
+	}
+	var ff prog.FailFile
+	var p Prog
+	if json.Unmarshal(raw, &ff) != nil || json.Unmarshal(ff.Program, &p) != nil {
+		t.Fatal("not a replay file")
+	}
+	r := prog.Guard(func() *prog.Result { return run(p) })
+	if r.Fail != nil {
+		fmt.Printf("FAIL %s\n%s\n", r.Fail.Sig, r.Fail.Msg)
+	} else {
+		fmt.Printf("PASS nontrivial=%v classes=%v\n  %s\n", r.NonTrivial, r.Classes, strings.Join(lastLog, "\n  "))
+	}
+}
